@@ -143,7 +143,7 @@ class Proxy:
             t = l.get("type", l.get("name"))
             if t in ("http", "socks") or (t == "reverse" and proto == "tcp"):
                 h, p = l["bind"].rsplit(":", 1)
-                ports.append((h, int(p)))
+                ports.append((h.strip("[]"), int(p)))
         m = self.cfg.get("metrics")
         if m:
             h, p = m["bind"].rsplit(":", 1)
